@@ -386,8 +386,38 @@ func runC04(c *Ctx) {
 	}
 
 	// ---- SCHEMA
-	c.Rule("C04.SCHEMA", "DOM: flushOnSchemaChangeLocked returns nil only where, on every path, the buffer has no schema entry or its entry equals the new signature — so batches of different column types never share a buffer")
-	if fn := c.MustFunc("C04.SCHEMA", abuf+"flushOnSchemaChangeLocked"); fn != nil {
+	c04SchemaLoopAs(c, "C04.SCHEMA")
+
+	// ---- GO
+	var gos []string
+	for _, fn := range p.FuncsIn("internal/ingest") {
+		for _, in := range instrs(fn, true) {
+			g, ok := in.(*ssa.Go)
+			if !ok {
+				continue
+			}
+			callee := g.Call.StaticCallee()
+			name := "<dynamic>"
+			if callee != nil {
+				name = callee.Name()
+			}
+			gos = append(gos, name)
+		}
+	}
+	known := map[string]bool{"flushWorker": true, "periodicFlush": true}
+	for _, g := range uniq(gos) {
+		if strings.Contains(g, "$") {
+			continue // closures: named by their parent below
+		}
+		c.Check(known[g], "C04.GO", "internal/ingest|go "+g, 0, "goroutine root is on the checker's list", "internal/ingest starts a goroutine ("+g+") that the panic-source rules were not reviewed for")
+	}
+	c.Floor("C04.GO", 2, "flush workers and the periodic flusher")
+}
+
+// c04SchemaLoopAs: the schema-evolution loop's exit condition, reported under the given rule id (C04 and C03 share it).
+func c04SchemaLoopAs(c *Ctx, rule string) {
+	c.Rule(rule, "DOM: flushOnSchemaChangeLocked returns nil only where, on every path, the buffer has no schema entry or its entry equals the new signature — so batches of different column types never share a buffer")
+	if fn := c.MustFunc(rule, abuf+"flushOnSchemaChangeLocked"); fn != nil {
 		n := 0
 		for _, in := range instrs(fn, false) {
 			ret, ok := in.(*ssa.Return)
@@ -414,35 +444,11 @@ func runC04(c *Ctx) {
 				}
 				return false
 			}
-			c.Check(okF(factsAt(ret)) || holdsOnAllPaths(ret.Block(), okF, 8, nil), "C04.SCHEMA", fmt.Sprintf("flushOnSchemaChangeLocked|nil-return#%d", n), ret.Pos(), "success only with no entry or an equal signature", "flushOnSchemaChangeLocked can report success although the buffer may hold batches of another schema (a concurrent writer can install one while the flush released the lock): the mixed buffer fails to merge at the next flush")
+			c.Check(okF(factsAt(ret)) || holdsOnAllPaths(ret.Block(), okF, 8, nil), rule, fmt.Sprintf("flushOnSchemaChangeLocked|nil-return#%d", n), ret.Pos(), "success only with no entry or an equal signature", "flushOnSchemaChangeLocked can report success although the buffer may hold batches of another schema (a concurrent writer can install one while the flush released the lock): the mixed buffer fails to merge at the next flush")
 		}
 		if n == 0 {
-			c.Unk("C04.SCHEMA", "flushOnSchemaChangeLocked|nil-return", fn.Pos(), "no nil return found")
+			c.Unk(rule, "flushOnSchemaChangeLocked|nil-return", fn.Pos(), "no nil return found")
 		}
 	}
 
-	// ---- GO
-	var gos []string
-	for _, fn := range p.FuncsIn("internal/ingest") {
-		for _, in := range instrs(fn, true) {
-			g, ok := in.(*ssa.Go)
-			if !ok {
-				continue
-			}
-			callee := g.Call.StaticCallee()
-			name := "<dynamic>"
-			if callee != nil {
-				name = callee.Name()
-			}
-			gos = append(gos, name)
-		}
-	}
-	known := map[string]bool{"flushWorker": true, "periodicFlush": true}
-	for _, g := range uniq(gos) {
-		if strings.Contains(g, "$") {
-			continue // closures: named by their parent below
-		}
-		c.Check(known[g], "C04.GO", "internal/ingest|go "+g, 0, "goroutine root is on the checker's list", "internal/ingest starts a goroutine ("+g+") that the panic-source rules were not reviewed for")
-	}
-	c.Floor("C04.GO", 2, "flush workers and the periodic flusher")
 }
